@@ -1,9 +1,12 @@
 #!/bin/bash
 # runs every recorded seeded change against the quick check of its property; writes seeded/RESULTS.tsv
 cd /verif
+# usage: tools/seed_sweep.sh [glob]   (default: all; with a glob the results go to seeded/RESULTS-partial.tsv)
+pat=${1:-C*-*}
 out=seeded/RESULTS.tsv
+[ $# -gt 0 ] && out=seeded/RESULTS-partial.tsv
 echo -e "seed\tproperty\texit\tverdict\tseconds" > $out
-for d in seeded/C*-*/; do
+for d in seeded/$pat/; do
   id=$(basename $d); p=${id%-*}
   if ! git -C /repo diff --quiet; then echo "/repo dirty"; exit 2; fi
   git -C /repo apply /verif/$d/patch.diff || { echo -e "$id\t$p\t-\tpatch-does-not-apply\t0" >> $out; continue; }
